@@ -97,7 +97,7 @@ def main():
         "hooks": {
             "guard": "verif",
             "enable": "go build -tags verif -overlay <generated by verif/instr from the current /repo tree>; no hook source is committed to /repo, instrumentation (sync/time/go/select shims, exported dump/invariant files, fsync callback, raft Ready extraction) is injected through the build overlay",
-            "baseline_off_cmd": "cd /repo && for m in . etcd/api etcd/client/pkg etcd/pkg etcd/raft etcd/server; do (cd $m && GOFLAGS=-mod=mod go test -vet=off -count=1 -timeout 25m ./...) || exit 1; done",
+            "baseline_off_cmd": "for m in . etcd etcd/api etcd/client/pkg etcd/client/v2 etcd/client/v3 etcd/pkg etcd/raft etcd/server; do (cd /repo/$m && GOFLAGS=-mod=mod go test -json -vet=off -count=1 -timeout 25m ./...); done",
             "source_commits": [],
             "add_only": True,
         },
